@@ -878,9 +878,9 @@ func main() {
 			two := [][2]int{{1, 1}, {2, 2}}
 			if tier == "thorough" {
 				return []vlib.Family{
-					family("T0<=2,T1<=1,pb2,free2", programs(2, 1, all4, true), vsched.Config{MaxPreempt: 2, MaxFree: 2, MaxDev: 0, MaxSteps: 3000}),
-					family("T0<=3,T1<=1,pb1,free1", programs(3, 1, two, true), vsched.Config{MaxPreempt: 1, MaxFree: 1, MaxDev: 0, MaxSteps: 3000}),
-					family("T0<=2,T1<=2,pb1,free1", programs(2, 2, two, false), vsched.Config{MaxPreempt: 1, MaxFree: 1, MaxDev: 0, MaxSteps: 3000}),
+					family("T0<=2,T1<=1,dev2", programs(2, 1, all4, true), vsched.Config{MaxPreempt: 2, MaxFree: 2, MaxTotal: 2, MaxDev: 0, MaxSteps: 3000}),
+					family("T0<=3,dev2", programs(3, 0, two, false), vsched.Config{MaxPreempt: 2, MaxFree: 2, MaxTotal: 2, MaxDev: 0, MaxSteps: 3000, MaxExecs: 30000}),
+					family("T0<=2,T1<=2,dev1", programs(2, 2, two, false), vsched.Config{MaxPreempt: 1, MaxFree: 1, MaxTotal: 1, MaxDev: 0, MaxSteps: 3000}),
 				}
 			}
 			return []vlib.Family{
